@@ -109,6 +109,11 @@ def run(ctx: Any, prog: Program) -> None:
             if len(rets) != 1:
                 raise AnalysisError(f'visibility helper {e.func.id} is not a single-expression predicate')
             return bool_eval(rets[0].value, hf.args.args[0].arg, env, depth + 1)
+        if isinstance(e, ast.Name):
+            # a local assigned once at function level (e.g. a hoisted `visgroup is not False`) stands for its definition
+            defs_ = [a_ for a_ in walk_no_nested(co) if isinstance(a_, ast.Assign) and len(a_.targets) == 1 and isinstance(a_.targets[0], ast.Name) and a_.targets[0].id == e.id]
+            if len(defs_) == 1 and defs_[0] in co.body:
+                return bool_eval(defs_[0].value, var, env, depth + 1)
         raise AnalysisError(f'collapse_one: visibility predicate contains `{ast.unparse(e)}` which is not modelled')
     for lp in [n for n in walk_no_nested(co) if isinstance(n, ast.For) and ast.unparse(n.iter) in ('file.vmf.brushes', 'file.vmf.entities')]:
         var = lp.target.id
